@@ -1,6 +1,7 @@
 package main
 
 import (
+	"io"
 	"context"
 	"bytes"
 	"encoding/base64"
@@ -598,6 +599,25 @@ func runAuth(accounts map[string]string, setHeader func(*http.Request)) (string,
 	if !ran {
 		outcome = fmt.Sprintf("deny%d", w.Code)
 	}
+	// the decision depends on the credentials only: the same gate in front of a route for every method gives the same
+	// verdict to a POST, a HEAD, and an OPTIONS request that looks like a CORS preflight
+	for _, v := range [][2]string{{"POST", ""}, {"HEAD", ""}, {"OPTIONS", "GET"}, {"OPTIONS", ""}, {"DELETE", "PUT"}} {
+		r2 := rux.New()
+		ran2 := false
+		r2.Any("/p", func(c *rux.Context) { ran2 = true }, handlers.HTTPBasicAuth(accounts))
+		rq := httptest.NewRequest(v[0], "/p", nil)
+		setHeader(rq)
+		if v[1] != "" {
+			rq.Header.Set("Access-Control-Request-Method", v[1])
+			rq.Header.Set("Origin", "https://app.example")
+		}
+		w2 := httptest.NewRecorder()
+		r2.ServeHTTP(w2, rq)
+		if ran2 != ran || (!ran && w2.Code != w.Code) {
+			oracle = append(oracle, fmt.Sprintf("C20 basic auth: the same credentials are answered ran=%v status=%d on GET but ran=%v status=%d on %s (Access-Control-Request-Method %q)", ran, w.Code, ran2, w2.Code, v[0], v[1]))
+			break
+		}
+	}
 	return fmt.Sprintf("%s ran=%s status=%d www=%s user=%s pwd=%s", outcome, b2s(ran), w.Code, www, user, pwd), oracle
 }
 
@@ -771,7 +791,11 @@ func runChain(nglobal int, spec string, hdrTok string) (string, []string) {
 		case 's':
 			w.WriteHeader(atoi(act[1:]))
 		case 'b':
-			_, _ = w.Write([]byte(mustUnhx(act[1:])))
+			if i%2 == 1 { // every other handler writes its body the way io.WriteString / fmt.Fprint do
+				_, _ = io.WriteString(w, mustUnhx(act[1:]))
+			} else {
+				_, _ = w.Write([]byte(mustUnhx(act[1:])))
+			}
 		default:
 			panic("harness: bad act " + act)
 		}
